@@ -884,7 +884,7 @@ class ChainAccount:
         return snap
 
 
-def chain_leg(ctx, env, ref, cases, meta, mnemonic_every, account=None):
+def chain_leg(ctx, env, ref, cases, meta, mnemonic_every, account=None, twins=True):
     ccases = [c for c in cases if c['kind'] == 'chain']
     def hkey(gaps, hist):
         return json.dumps([gaps, hist], sort_keys=True)
@@ -935,7 +935,8 @@ def chain_leg(ctx, env, ref, cases, meta, mnemonic_every, account=None):
             return ref.address(env.ledger, ref.ser_p(nd.pk)), ref.ser_p(nd.pk), nd.cc
         try:
             with watchdog(120):
-                a, b = ChainAccount(env, env.ledger, d), ChainAccount(env, env.ledger_b, d)
+                a = ChainAccount(env, env.ledger, d)
+                b = ChainAccount(env, env.ledger_b, d) if twins else None
                 if bytes(a.acc.public_key.pubkey_bytes) != ref.ser_p(root.pk) or bytes(a.acc.public_key.chain_code) != root.cc:
                     ctx.violation('account-root-key-differs-from-bip32', f'account key {a.acc.public_key.extended_key_string()}', rep)
                     continue
@@ -948,8 +949,8 @@ def chain_leg(ctx, env, ref, cases, meta, mnemonic_every, account=None):
                     seen_prefix.add(hk)
                     ctx.count(('chain', hk, 'x') if fresh else None, nontrivial=step >= 1)
                     stats['calls'] += 1
-                    new_a, new_b = a.do(act), b.do(act)
-                    sa, sb = a.snapshot(), b.snapshot()
+                    new_a, sa = a.do(act), a.snapshot()
+                    new_b, sb = (b.do(act), b.snapshot()) if twins else (new_a, sa)
                     what = f'after {[ (x["a"], x["c"], x["n"]) for x in leaf["hist"][:step + 1] ]} with gaps {g}'
                     if sa != sb or new_a != new_b:
                         ctx.violation('chain-two-instances-differ', f'two accounts from the same secret disagree {what}', rep)
@@ -1086,6 +1087,12 @@ def run(ctx):
         nrep += timed('base58check', chk_leg, ctx, env, ref, cases)
         nrep += timed('mnemonic', mnem_leg, ctx, env, cases)
         nrep += timed('chain', chain_leg, ctx, env, ref, cases, meta, 12 if ctx.thorough else 25)
+        # longer histories on the smallest gaps: several use-then-top-up rounds, so a chain is extended when it already holds
+        # more keys than the gap
+        deepc = dict(consts, FAMILIES={'chain'}, GAPS={201}, HISTLEN=6 if ctx.thorough else 5)
+        ccases, cmeta = leg_a(ctx, deepc, 'HdKeys-longchain')
+        if ccases is not None:
+            nrep += timed('chain', chain_leg, ctx, env, ref, ccases, cmeta, 40, twins=False)
         if ctx.thorough:
             # the default gaps of a real account (20 receiving, 6 change), shorter histories
             g20 = dict(consts, FAMILIES={'chain'}, GAPS={2006}, HISTLEN=3)
